@@ -164,6 +164,9 @@ func runInterrupts(t *kernel.Tape, opt core.Opts, only string) *core.Outcome {
 			if withID {
 				c.Opts = append(c.Opts, compose.WithCheckPointID("cp"))
 			}
+			if only == "C10" {
+				c.Opts = append(c.Opts, compose.WithCallbacks(env.recordingHandler("c0", k%3)))
+			}
 			before := store.sets
 			first, firstStep := env.Seq(), s.Step()
 			res := doCall(env, r, c)
@@ -272,6 +275,30 @@ func runInterrupts(t *kernel.Tape, opt core.Opts, only string) *core.Outcome {
 		if storeFailed && c.setsDone > 0 && isInt && c.idx == len(calls)-1 {
 			viol("C06/interrupt-reported-although-store-failed", fmt.Sprintf("call %d: the store rejected the checkpoint, yet the call returned an interrupt", c.idx))
 		}
+	}
+	if only == "C10" {
+		// callbacks stay paired across interrupts: every start of a unit is followed by its
+		// end / error, also when the unit is interrupted and later resumed
+		type hk struct{ h, name string }
+		open := map[hk]int{}
+		for _, ev := range env.Callbacks.Events {
+			k := hk{ev.Handler, ev.Name}
+			if isStart(ev.Timing) {
+				open[k]++
+			} else {
+				open[k]--
+				if open[k] < 0 {
+					o.Violate("C10/end-without-start", fmt.Sprintf("handler %s got %s for %s without a preceding start (history with %d interrupts)", ev.Handler, ev.Timing, ev.Name, nInt))
+					open[k] = 0
+				}
+			}
+		}
+		for k, n := range open {
+			if n != 0 {
+				o.Violate("C10/start-without-end", fmt.Sprintf("handler %s: %d start(s) for %s never got an end/error (history with %d interrupts)", k.h, n, k.name, nInt))
+			}
+		}
+		o.Stat("scenario.interrupt_history", 1)
 	}
 	foldEnvOnly(o, env, only)
 	o.Stat("mode."+modeNames[p.Mode], 1)
